@@ -10,7 +10,19 @@ import (
 // Rand is a splitmix64 generator: every random choice of a run derives from one seed.
 type Rand struct{ s uint64 }
 
-func NewRand(seed uint64) *Rand { return &Rand{s: seed*0x9E3779B97F4A7C15 + 0x1234567} }
+// Seed 1 keeps the state it always had (recorded replays and corpus indices refer to its sequence). The state of
+// every other seed goes through the splitmix finaliser first: `seed*G + c` alone puts the sequences of seeds s and
+// s+1 exactly one draw apart (the generator steps by G), so seeds 1..4 explored nearly the same cases.
+func NewRand(seed uint64) *Rand {
+	s := seed*0x9E3779B97F4A7C15 + 0x1234567
+	if seed != 1 {
+		z := s
+		z = (z ^ (z >> 30)) * 0xBF58476D1CE4E5B9
+		z = (z ^ (z >> 27)) * 0x94D049BB133111EB
+		s = z ^ (z >> 31)
+	}
+	return &Rand{s: s}
+}
 
 func (r *Rand) U64() uint64 {
 	r.s += 0x9E3779B97F4A7C15
